@@ -180,7 +180,10 @@ class SchemaGen(object):
         if not self.chance(p):
             return None
         if self.hostile and self.chance(0.5):
-            return self.rng.choice(HOSTILE_DESCRIPTIONS)
+            pool = HOSTILE_DESCRIPTIONS
+            if self.hostile == "no-rewrap":
+                pool = [d for d in pool if all(len(l) <= 100 for l in d.split("\n"))]
+            return self.rng.choice(pool)
         return self.rng.choice(DESCRIPTIONS)
 
     def fresh(self, prefix):
